@@ -470,3 +470,17 @@ def state_lifetime(prog, rule, keys):
                                            'outside the owner\'s destructor' % (rec, field, cal, f.name))
         if n == 0:
             raise AnalysisBroken('state container %s.%s: no creation site found' % (rec, field))
+
+
+
+def shared_rule(ck, prog, rid, title, kind, breaks, floor, fn, *args):
+    """Run rule function fn (written for another property) with every ck.rule() it makes redirected to one rule
+    of this property: the clause is a necessary condition of both properties."""
+    r = ck.rule(rid, title, kind, breaks=breaks, floor=floor)
+    save = ck.rule
+    ck.rule = lambda *a, **k: r
+    try:
+        fn(ck, prog, *args)
+    finally:
+        ck.rule = save
+    return r
